@@ -50,7 +50,8 @@ EXPECTED_PROBES = ['two_tests_overlapped', 'consecutive_runs', 'own_record_logge
                    'cli_verbosity_0', 'cli_verbosity_1', 'cli_verbosity_2', 'debug_message_recorded']
 
 PROF_A = gen.profile(max_nodes=6, max_depth=2, p_logs=500, p_xlogs=500, p_plug=450, p_attach=100, p_meas=150, p_diag=150,
-                     p_dur=250, p_fault_beh=250, p_test_start=250, p_test_diag=100, p_settings=150)
+                     p_dur=250, p_fault_beh=250, p_test_start=250, p_test_diag=100, p_settings=150, p_dut_percent=250,
+                     p_callbacks_raise=200)
 PROF_B = gen.profile(max_nodes=5, max_depth=2, p_logs=500, p_xlogs=500, p_plug=450, p_attach=50, p_meas=100, p_diag=100,
                      p_dur=250, p_fault_beh=200, p_test_start=150, p_test_diag=0, p_settings=0)
 
